@@ -74,6 +74,14 @@ func RangeOne(eco string, r *rand.Rand) string {
 		if eco == "nuget" {
 			forms = append(forms, ">="+a+",<"+b, ">"+a+", <="+b, "!="+a+",", "="+a+",", a+","+b)
 		}
+		if eco == "maven" && chance(r, 1, 4) {
+			// multi-set ranges with three to five sets (a scan over the alternatives, a hint which one matched last)
+			vs := []string{ver(), ver(), ver(), ver(), ver(), ver()}
+			sets := []string{"(," + vs[0] + "]", "[" + vs[1] + "," + vs[2] + "]", "[" + vs[3] + "]", "(" + vs[4] + "," + vs[5] + ")", "[" + vs[5] + ",)"}
+			n := 3 + r.IntN(3)
+			r.Shuffle(len(sets), func(x, y int) { sets[x], sets[y] = sets[y], sets[x] })
+			return strings.Join(sets[:n], ",")
+		}
 		return forms[r.IntN(len(forms))]
 	}
 	single := func() string {
